@@ -391,6 +391,8 @@ def show_sym(i, depth=0):
         return "%s[%s]" % (k[1], ",".join(str(j) for j in k[2]))
     if k[0] == "cut":
         return "{%s}" % unpk(("P", k[1])).show(2)
+    if k[0] == "sg":
+        return "sg(%s)" % show_sym(k[1], depth + 1)
     if k[0] == "fn":
         if depth > 2:
             return "%s(...)" % k[1]
@@ -436,6 +438,8 @@ def leaf_names(p):
                 walk_key(a)
         elif k[0] == "cut":
             walk_key(("P", k[1]))
+        elif k[0] == "sg":
+            pass  # protected by stop_gradient: not a differentiable dependence
 
     def walk_key(a):
         if is_pk(a):
@@ -477,6 +481,8 @@ def leaves_of(p):
                 walk_key(a)
         elif k[0] == "cut":
             walk_key(("P", k[1]))
+        elif k[0] == "sg":
+            pass  # protected by stop_gradient: not a differentiable dependence
 
     def walk_key(a):
         if is_pk(a):
